@@ -207,3 +207,121 @@ package parse
 //@   loop 2 invariant input: sameview(l.input, entry(l.input)) || (ins == nil && l.mode == modeClosed)
 //@   loop 2 invariant st: ins != nil ==> sinv(l) && statepre(ins, l)
 //@   loop 2 decreases ite(ins == nil, 0, measure(ins, l))
+
+// ---------------------------------------------------------------------------------------
+// Layer T — token stream and push-back (parse.go)
+//
+// Assumption A4: the tokeniser goroutine and the unbuffered channel behave as a lazy token stream.
+// The ghost fields describe that stream: stream[k] is the k-th token nextToken returns, rcv the number
+// of tokens received so far, term the index of the first terminal token (EOF or error). The lexer side
+// proves that a terminal token is sent last and the channel is then closed (tokenize#post:closed, G3);
+// nextToken returns l.last once the channel is closed, i.e. the terminal token again.
+//@ ghost parse.lexer stream array:token
+//@ ghost parse.lexer rcv int
+//@ ghost parse.lexer term int
+//@ pred terminal(tok token) = tok.tokenType == tokenEOF || tok.tokenType == tokenError
+//@ pred streamOK(l *lexer) = l.term >= 0 && terminal(l.stream[l.term]) && (forall k trig :: 0 <= k && k < l.term ==> !terminal(l.stream[k])) && (forall k trig :: k >= l.term ==> l.stream[k] == l.stream[l.term])
+
+//@ func parse.(*lexer).nextToken
+//@   trusted
+//@   requires streamOK(l)
+//@   ensures val: result == l.stream[old(l.rcv)]
+//@   ensures rcv: l.rcv == old(l.rcv) + 1
+//@   modifies G|parse.lexer.rcv|Int, F|parse.lexer.last|S_parse.token
+
+// twf: the push-back stacks are a window on the stream. read holds stream[0..cur), unread (a stack)
+// holds stream[cur..rcv) reversed.
+//@ pred tcur(t *Tree) = len(t.read)
+//@ pred tokAt(t *Tree, k int) = t.lex.stream[k]
+// (window is opaque: only next and backup, which touch the slices, see its definition)
+//@ opaque pred window(t *Tree) = (forall i :: 0 <= i && i < len(t.read) ==> t.read[i] == t.lex.stream[i])
+//@+  && (forall j :: 0 <= j && j < len(t.unread) ==> t.unread[j] == t.lex.stream[len(t.read) + len(t.unread) - 1 - j])
+//@ pred twf(t *Tree) = t.lex != nil && streamOK(t.lex) && t.lex.rcv == len(t.read) + len(t.unread) && ref(t.read) != ref(t.unread) && window(t)
+//@ pred isWS(tok token) = tok.tokenType == tokenWhitespace
+
+//@ func parse.(*Tree).next
+//@   reveal window
+//@   requires twf(t)
+//@   ensures wf: twf(t)
+//@   ensures adv: tcur(t) == old(tcur(t)) + 1
+//@   ensures val: result == tokAt(t, old(tcur(t)))
+
+// C01: push-back never pops an empty stack
+//@ func parse.(*Tree).backup
+//@   reveal window
+//@   requires twf(t)
+//@   requires depth: tcur(t) >= 1
+//@   ensures wf: twf(t)
+//@   ensures back: tcur(t) == old(tcur(t)) - 1
+
+//@ func parse.(*Tree).backup2
+//@   requires twf(t)
+//@   requires depth: tcur(t) >= 2
+//@   ensures wf: twf(t)
+//@   ensures back: tcur(t) == old(tcur(t)) - 2
+
+//@ func parse.(*Tree).backup3
+//@   requires twf(t)
+//@   requires depth: tcur(t) >= 3
+//@   ensures wf: twf(t)
+//@   ensures back: tcur(t) == old(tcur(t)) - 3
+
+//@ func parse.(*Tree).peek
+//@   requires twf(t)
+//@   ensures wf: twf(t)
+//@   ensures same: tcur(t) == old(tcur(t))
+//@   ensures val: result == tokAt(t, tcur(t))
+
+// peekNonSpace consumes the blanks in front of the next token and leaves the cursor on that token.
+//@ func parse.(*Tree).peekNonSpace
+//@   requires twf(t)
+//@   ensures wf: twf(t)
+//@   ensures fwd: tcur(t) >= old(tcur(t))
+//@   ensures skipped: forall k :: old(tcur(t)) <= k && k < tcur(t) ==> isWS(tokAt(t, k))
+//@   ensures val: result == tokAt(t, tcur(t)) && !isWS(result)
+//@   loop 1 invariant twf(t) && tcur(t) >= old(tcur(t)) && (forall k :: old(tcur(t)) <= k && k < tcur(t) ==> isWS(tokAt(t, k)))
+//@   loop 1 decreases t.lex.term - tcur(t)
+
+//@ func parse.(*Tree).nextNonSpace
+//@   requires twf(t)
+//@   ensures wf: twf(t)
+//@   ensures fwd: tcur(t) > old(tcur(t))
+//@   ensures skipped: forall k :: old(tcur(t)) <= k && k < tcur(t) - 1 ==> isWS(tokAt(t, k))
+//@   ensures val: result == tokAt(t, tcur(t) - 1) && !isWS(result)
+//@   loop 1 invariant twf(t) && tcur(t) >= old(tcur(t)) && (forall k :: old(tcur(t)) <= k && k < tcur(t) ==> isWS(tokAt(t, k)))
+//@   loop 1 decreases t.lex.term - tcur(t)
+
+//@ func parse.(*Tree).expect
+//@   requires twf(t)
+//@   ensures wf: twf(t)
+//@   ensures fwd: tcur(t) > old(tcur(t))
+//@   ensures skipped: forall k :: old(tcur(t)) <= k && k < tcur(t) - 1 ==> isWS(tokAt(t, k))
+//@   ensures val: r0 == tokAt(t, tcur(t) - 1) && !isWS(r0)
+//@   ensures ok: err == nil ==> (exists i in [0, 4) :: i < len(typs) && typs[i] == r0.tokenType) || len(typs) > 4
+//@   ensures bad: err != nil ==> (forall i :: 0 <= i && i < len(typs) ==> typs[i] != r0.tokenType)
+//@   loop 1 invariant twf(t) && tcur(t) == entry(tcur(t)) && rangeindex >= -1 && (forall j :: 0 <= j && j <= rangeindex ==> typs[j] != tok.tokenType)
+//@   loop 1 decreases len(typs) - rangeindex
+
+//@ func parse.(*Tree).expectValue
+//@   requires twf(t)
+//@   ensures wf: twf(t)
+//@   ensures fwd: tcur(t) > old(tcur(t))
+//@   ensures skipped: forall k :: old(tcur(t)) <= k && k < tcur(t) - 1 ==> isWS(tokAt(t, k))
+//@   ensures val: r0 == tokAt(t, tcur(t) - 1) && !isWS(r0)
+//@   ensures ok: err == nil ==> r0.tokenType == typ && r0.value == val
+
+//@ func parse.newUnexpectedTokenError
+//@   ensures result != nil
+//@   pure
+//@ func parse.newUnclosedTagError
+//@   ensures result != nil
+//@   pure
+//@ func parse.newUnexpectedEOFError
+//@   ensures result != nil
+//@   pure
+//@ func parse.newUnexpectedValueError
+//@   ensures result != nil
+//@   pure
+//@ func parse.newMultipleExtendsError
+//@   ensures result != nil
+//@   pure
